@@ -287,8 +287,8 @@ func runClean(_ []string) {
 			continue
 		}
 		for _, entry := range entries {
-			if !entry.Type().IsRegular() {
-				continue // counter files and reports are regular files
+			if entry.IsDir() {
+				continue // counter files and reports are not directories
 			}
 			// TODO: use slices.ContainsFunc once it is available in all supported Go
 			// versions.
